@@ -352,10 +352,23 @@ impl GitDiff {
                 // All files in the new directory are added
                 Self::process_added_entry(target_entry, path, changed)?;
             }
-            // Submodules (Commit) and symbolic links (Link) are intentionally skipped.
-            // We only track regular file changes, not submodule pointer updates.
-            (EntryKind::Commit | EntryKind::Link, _) | (_, EntryKind::Commit | EntryKind::Link) => {
+            // A symbolic link or submodule entry is not a regular file itself, but when it is
+            // replaced by a file or directory those are new regular files, and when it replaces
+            // a file or directory those are gone.
+            (EntryKind::Commit | EntryKind::Link, EntryKind::Blob | EntryKind::BlobExecutable) => {
+                changed.insert(path.to_path_buf());
             }
+            (EntryKind::Commit | EntryKind::Link, EntryKind::Tree) => {
+                Self::process_added_entry(target_entry, path, changed)?;
+            }
+            (
+                EntryKind::Blob | EntryKind::BlobExecutable | EntryKind::Tree,
+                EntryKind::Commit | EntryKind::Link,
+            ) => {
+                Self::process_deleted_entry(base_entry, path, deleted_candidates)?;
+            }
+            // Link/submodule pointer updates are not regular file changes.
+            (EntryKind::Commit | EntryKind::Link, EntryKind::Commit | EntryKind::Link) => {}
         }
         Ok(())
     }
